@@ -727,13 +727,21 @@ func runBdsqr(t *vlib.T, p prof, m, n int, d, e []float64, a, q, pm M, ldx int) 
 			if us != nil {
 				want := mul(u.T(), mul(qk, cm))
 				chk(t, "bdsqr-QtC", ratio(fro(sub(cs.toM(), want)), dim, fro(cm)), thresh, ctx)
-			} else {
-				// norm preservation of every column (Q_B is orthogonal)
-				got := cs.toM()
-				for j := 0; j < ncc; j++ {
-					chk(t, "bdsqr-QtC-colnorm", ratio(math.Abs(fro(got.sub(0, k, j, j+1))-fro(cm.sub(0, k, j, j+1))), dim, fro(cm)), thresh, ctx)
+			}
+			// whether or not U was requested: the definition free of Q
+			// (gotᵀ S^2k got = Cᵀ (B Bᵀ)^k C) on the k×k bidiagonal matrix itself
+			bk := newM(k, k)
+			for i := 0; i < k; i++ {
+				bk.set(i, i, d[i])
+				if i+1 < k {
+					if uplo == blas.Upper {
+						bk.set(i, i+1, e[i])
+					} else {
+						bk.set(i+1, i, e[i])
+					}
 				}
 			}
+			checkQtC(t, "bdsqr", bk, cm, cs.toM(), dd, nil, nil, nil, dim, ctx)
 		}
 	}
 	// Dlasq1 directly (documented work length 4n).
@@ -897,6 +905,22 @@ func checkBidiag(t *vlib.T, n int, d0, e0 []float64, uplo blas.Uplo, ldx int, cm
 			chk(t, "direct-lasq1-s-vs-jacobi", ratio(maxDiff(d, oracle), dim, nrm), thresh, ctx0)
 		}
 	}
+	// companion run accumulating U only: reference for Qᵀ*C in every other call
+	var uref *M
+	if n > 0 {
+		d, e := append([]float64(nil), d0...), append([]float64(nil), e0...)
+		ur := fromM(eye(n), n)
+		var ok bool
+		if !call(t, "Dbdsqr (companion) "+ctx0, func() {
+			ok = impl.Dbdsqr(uplo, n, 0, n, 0, d, e, nil, 1, ur.d, n, nil, 1, poisoned(max(0, 4*(n-1))))
+		}) {
+			return false
+		}
+		if ok {
+			m := ur.toM()
+			uref = &m
+		}
+	}
 	for mask := 0; mask < 8; mask++ {
 		ncvt, nru, ncc := 0, 0, 0
 		if mask&1 != 0 {
@@ -969,9 +993,14 @@ func checkBidiag(t *vlib.T, n int, d0, e0 []float64, uplo blas.Uplo, ldx int, cm
 			if i, ok := cs.padOK(n, ncc); !ok {
 				t.Failf("padding of c modified at flat index %d [%s]", i, ctx)
 			}
+			var up, vp *M
 			if us != nil {
-				chk(t, "direct-bdsqr-QtC", ratio(fro(sub(cs.toM(), mul(u.T(), cm))), dim, fro(cm)), thresh, ctx)
+				up = &u
 			}
+			if vts != nil {
+				vp = &vt
+			}
+			checkQtC(t, "direct-bdsqr", b, cm, cs.toM(), d, up, vp, uref, dim, ctx)
 		}
 		t.Count("bdsqr_direct_calls", 1)
 	}
@@ -1057,5 +1086,38 @@ func genDbdsqrSpecial(g *vlib.G) {
 				}
 			}
 		}
+	}
+}
+
+// checkQtC checks the matrix got that Dbdsqr returned in c against C = Qᵀ*C0 for
+// the bidiagonal matrix B = Q*S*Pᵀ (b dense, sv its computed singular values)
+// whether or not U or VT were requested in the same call:
+//
+//   - definition, free of Q: gotᵀ*S^(2k)*got = C0ᵀ*(B*Bᵀ)^k*C0 for k = 0, 1, 2
+//     (k = 0 is norm preservation; k >= 1 fails when Q was not applied);
+//   - with the right singular vectors of the same call: Bᵀ*C0 = VTᵀ*S*got;
+//   - with the left singular vectors of the same call: got = Uᵀ*C0;
+//   - consistency with uref, the left singular vectors of a companion call that
+//     accumulates U only (the rotations depend on d and e only).
+func checkQtC(t *vlib.T, what string, b, c0, got M, sv []float64, u, vt, uref *M, dim float64, ctx string) {
+	nb, nc := fro(b), fro(c0)
+	sig := diagM(sv)
+	lhsPow, rhsPow := got, c0
+	for k := 0; k <= 2; k++ {
+		if k > 0 {
+			lhsPow = mul(mul(sig, sig), lhsPow)
+			rhsPow = mul(b, mul(b.T(), rhsPow))
+		}
+		scale := nc * nc * math.Pow(nb, float64(2*k))
+		chk(t, what+"-QtC-moment", ratio(fro(sub(mul(got.T(), lhsPow), mul(c0.T(), rhsPow))), dim, scale), thresh, fmt.Sprintf("%s k=%d", ctx, k))
+	}
+	if vt != nil {
+		chk(t, what+"-BtC-VSQtC", ratio(fro(sub(mul(b.T(), c0), mul(vt.T(), mul(sig, got)))), dim, nb*nc), thresh, ctx)
+	}
+	if u != nil {
+		chk(t, what+"-QtC-UtC", ratio(fro(sub(got, mul(u.T(), c0))), dim, nc), thresh, ctx)
+	}
+	if uref != nil {
+		chk(t, what+"-QtC-vs-U-run", ratio(fro(sub(got, mul(uref.T(), c0))), dim, nc), thresh, ctx)
 	}
 }
